@@ -491,7 +491,14 @@ def r63(ctx, res):
         n += 1
         ok = False
         why = "no loop over the faces adds a pyramid"
-        for lp in [x for x in walk_local(fi.node) if isinstance(x, ast.For)]:
+        # the loop may live in a helper method that every normal path of fi calls (shared by __init__ and move)
+        from .c15 import _must_pass_helpers
+        scope = [fi]
+        for f_ in scope:
+            for h_ in _must_pass_helpers(ctx, f_):
+                if all(h_ is not y for y in scope) and len(scope) < 8 and h_.cls is fi.cls:
+                    scope.append(h_)
+        for lp in [x for f_ in scope for x in walk_local(f_.node) if isinstance(x, ast.For)]:
             it = txt(lp.iter)
             if it not in ("range(len(%s.convex_polygons))" % sn, "%s.convex_polygons" % sn, "enumerate(%s.convex_polygons)" % sn):
                 continue
